@@ -3,11 +3,11 @@ import heapq, itertools, math
 import numpy as np
 
 PID = "C20"
-THEOREMS = ["spread_sound", "spread_upper", "spread_attained"]
+THEOREMS = ["spread_sound", "spread_upper", "spread_attained", "dissolve_labels_spec", "dissolve_idxs_spec"]
 RULE = ("observation / mask patterns on shapes up to 2x3 (exhaustive over {nodata, a, b} x mask), random rasters to 8x8 "
         "(12x12 thorough) with integer frictions 1..3 on 3-4-5 cells (all float32 sums exact) through gis_utils.spread2d, "
         "compared with the model and with an independent Dijkstra; geographic grids on both hemispheres and both "
-        "y-orientations against a float Dijkstra; regions.region_dissolve on random label maps; non-trivial = some cell "
+        "y-orientations against a float Dijkstra; regions.region_dissolve on random label maps (3-4-5 cells: compared with the model, by labels and by locations; unit cells: oracle); non-trivial = some cell "
         "is filled from a source at distance > 0")
 ASSUMPTIONS = ["costs are integers in the model (3-4-5 cells x integer friction); geographic / general float costs are "
                "checked by the oracle only (float32 accumulation compared to 1e-5 relative)",
@@ -63,6 +63,29 @@ def cases(tier, rng):
         hm = int(rng.random() < 0.3)
         msk = [int(rng.random() < 0.9) for _ in range(n)] if hm else []
         yield {"k": 2001, "args": [[nr], [nc], obs, [hm], msk, [nod], [1], frc, rng.choice([[3, 4, 5], [4, 3, 5]])], "group": "patches"}
+    # region_dissolve on 3-4-5 cells (all costs exact): compared with the model, by labels and by locations
+    for t in range(200 if tier == "quick" else 2000):
+        nr, nc = rng.randint(1, 7), rng.randint(2, 7)
+        n = nr * nc
+        seeds = rng.sample(range(n), min(rng.randint(2, 5), n))
+        ids = rng.sample(range(1, 12), len(seeds))
+        regs = []
+        for i in range(n):
+            r, c = divmod(i, nc)
+            k = min(range(len(seeds)), key=lambda q: (max(abs(seeds[q] // nc - r), abs(seeds[q] % nc - c)), q))
+            regs.append(ids[k])
+        if rng.random() < 0.2:      # background cells (label 0) are spread over as well
+            for i in range(n):
+                if rng.random() < 0.15:
+                    regs[i] = 0
+        present = sorted(set(v for v in regs if v > 0))
+        if len(present) < 2:
+            continue
+        kill = rng.sample(present, rng.randint(1, len(present) - 1))
+        by_idxs = rng.random() < 0.5
+        locs = [rng.choice([i for i in range(n) if regs[i] == k]) for k in kill] if by_idxs else []
+        yield {"k": 2002, "args": [[nr], [nc], regs, [] if by_idxs else kill, [int(by_idxs)], locs, rng.choice([[3, 4, 5], [4, 3, 5]])],
+               "call": {"kill": kill}, "group": "dissolve-" + ("idxs" if by_idxs else "labels")}
     for t in range(60 if tier == "quick" else 600):
         yield {"k": 2000, "args": [[t]], "call": {"what": rng.choice(["geo", "geo", "dissolve"]), "seed": rng.randrange(10**9)}, "group": "float-and-dissolve"}
 
@@ -105,6 +128,25 @@ def impl(case):
     from affine import Affine
     if case["k"] == 2000:
         return _float(case["call"])
+    if case["k"] == 2002:
+        from pyflwdir import regions
+        a = case["args"]
+        nr, nc = a[0][0], a[1][0]
+        lab = np.array(a[2], dtype=np.int32).reshape(nr, nc)
+        before = lab.copy()
+        tr = Affine(float(a[6][0]), 0.0, 0.0, 0.0, -float(a[6][1]), 0.0)
+        if a[4][0]:
+            st, res = call_impl(regions.region_dissolve, lab, None, np.array(a[5]), transform=tr)
+        else:
+            st, res = call_impl(regions.region_dissolve, lab, np.array(a[3]), transform=tr)
+        if st != "ok":
+            return [[-2], [st, str(res)[:100]]]
+        if not np.array_equal(before, lab):
+            return [[-4], ["input mutated"]]
+        res = np.asarray(res)
+        if res.shape != lab.shape:
+            return [[-3], [str(res.shape)]]
+        return [[int(x) for x in res.ravel()]]
     a = case["args"]
     nr, nc, obs, hm, msk, nod, hf, frc, dxy = a[0][0], a[1][0], a[2], a[3][0], a[4], a[5][0], a[6][0], a[7], a[8]
     o = np.array(obs, dtype=np.int32).reshape(nr, nc)
@@ -235,6 +277,8 @@ def oracle(case, out):
         return None if out == [[0]] else (out[1][0], out[1][1])
     if out and out[0] in ([-2], [-3], [-4]):
         return ("spread:unexpected-outcome", f"{out}")
+    if case["k"] == 2002:
+        return _dissolve_oracle(case, out)
     a = case["args"]
     nr, nc, obs, hm, msk, nod, hf, frc, dxy = a[0][0], a[1][0], a[2], a[3][0], a[4], a[5][0], a[6][0], a[7], a[8]
 
@@ -246,7 +290,69 @@ def oracle(case, out):
     return _check(nr, nc, obs, msk if hm else None, nod, cost, out[0], out[1], out[2], 0.0)
 
 
+def _dissolve_oracle(case, out):
+    a = case["args"]
+    nr, nc, flat, by_idxs, locs, dxy = a[0][0], a[1][0], a[2], a[4][0], a[5], a[6]
+    n = nr * nc
+    kill = case["call"]["kill"]
+    keep = sorted(set(v for v in flat if v > 0 and v not in kill))
+    res = out[0]
+    if len(res) != n:
+        return ("dissolve:shape", f"{len(res)} values")
+    for i, (v_old, v_new) in enumerate(zip(flat, res)):
+        if v_old not in kill and v_new != v_old:
+            return ("dissolve:other-cell-changed", f"cell {i} with label {v_old} became {v_new}; regions {flat} dissolve {kill}")
+
+    def cost(i, j):
+        r, c = divmod(i, nc)
+        r2, c2 = divmod(j, nc)
+        return float(dxy[0] if r == r2 else dxy[1] if c == c2 else dxy[2])
+    # distance from every surviving label separately (spreading runs over dissolved and background cells alike)
+    dist_to = {}
+    for L in keep:
+        obs = [(flat[i] if flat[i] not in kill else 0) for i in range(n)]
+        only = [(v if v == L else (0 if v == 0 else -1)) for v in obs]      # other survivors block nothing but are no sources
+        d = {}
+        h = [(0.0, i) for i in range(n) if only[i] == L]
+        for _, i in h:
+            d[i] = 0.0
+        heapq.heapify(h)
+        while h:
+            dd, i = heapq.heappop(h)
+            if dd > d.get(i, math.inf):
+                continue
+            r, c = divmod(i, nc)
+            for dr in (-1, 0, 1):
+                for dc in (-1, 0, 1):
+                    if (dr or dc) and 0 <= r + dr < nr and 0 <= c + dc < nc:
+                        j = (r + dr) * nc + c + dc
+                        if obs[j] != 0:          # surviving cells are never overwritten (and never relaxed into)
+                            continue
+                        nd = dd + cost(i, j)
+                        if nd < d.get(j, math.inf):
+                            d[j] = nd
+                            heapq.heappush(h, (nd, j))
+        dist_to[L] = d
+    for t, k in enumerate(kill):
+        cells = [i for i in range(n) if flat[i] == k]
+        got = set(res[i] for i in cells)
+        if len(got) != 1:
+            return ("dissolve:region-split", f"dissolved region {k} split over labels {sorted(got)}; regions {flat} dissolve {kill}")
+        g1 = got.pop()
+        ref = [locs[t]] if by_idxs else cells
+        best = min((dist_to[L].get(i, math.inf) for L in keep for i in ref), default=math.inf)
+        okl = [L for L in keep if min(dist_to[L].get(i, math.inf) for i in ref) <= best]
+        if g1 not in okl:
+            return ("dissolve:not-nearest", f"dissolved region {k} got label {g1}; nearest surviving region(s) {okl} at distance {best}; "
+                    f"regions {flat} ({nr}x{nc}) dissolve {kill}" + (f" at {locs}" if by_idxs else "") + f" cells {dxy}")
+    return None
+
+
 def compare(case, i, m):
+    if case["k"] == 2002:
+        # among equally near survivors (and, for labels=, equally near cells of the region) the choice is unspecified:
+        # a result that differs from the model's is accepted iff the independent oracle accepts it
+        return i == m or (bool(i) and i[0] not in ([-2], [-3], [-4]) and _dissolve_oracle(case, i) is None)
     if case["k"] == 2001 and i != m and len(i) == 3 and len(m) == 3:
         # equally distant sources: the implementation may keep either; distances must agree
         return i[2] == m[2]
@@ -254,4 +360,4 @@ def compare(case, i, m):
 
 
 def nontrivial(case, out):
-    return case["k"] == 2000 or (len(out) == 3 and any(d > 0 for d in out[2]))
+    return case["k"] in (2000, 2002) or (len(out) == 3 and any(d > 0 for d in out[2]))
